@@ -450,10 +450,26 @@ impl Ctx {
     where
         C: Debug + Serialize + Clone,
     {
+        self.run_enum_opt(group, cases, exhaustive, true, check)
+    }
+
+    /// `sharded = false`: this process evaluates every case (for groups that
+    /// only one shard runs).
+    pub fn run_enum_opt<C>(
+        &self,
+        group: &str,
+        cases: impl IntoIterator<Item = C>,
+        exhaustive: bool,
+        sharded: bool,
+        check: impl Fn(&C) -> Verdict,
+    ) -> bool
+    where
+        C: Debug + Serialize + Clone,
+    {
         self.result.borrow_mut().groups.entry(group.to_string()).or_default();
         let mut ok = true;
         for (i, case) in cases.into_iter().enumerate() {
-            if (i as u64) % self.nshards != self.shard {
+            if sharded && (i as u64) % self.nshards != self.shard {
                 continue;
             }
             self.journal_case(group, &case);
